@@ -99,14 +99,67 @@ def evOfJ : J → Option Ev
     | _, _, _, _, _, _, _, _ => none
   | _ => none
 
-/-- firewall family used by the harness: blocked names, blocked channel strings -/
+/-- where a firewall rule looks: positional argument, keyword argument, instance attribute -/
+inductive Sel where
+  | arg (i : Nat)
+  | kw (k : String)
+  | attr (k : String)
+
+def Sel.get (s : Sel) (e : Ev) : Option J :=
+  match s with
+  | .arg i => e.args[i]?
+  | .kw k => J.lookup k e.kwargs
+  | .attr k => J.lookup k e.attrs
+
+/-- verdicts that depend on more than name and channels (every rule must allow) -/
+inductive Rule where
+  | le (s : Sel) (n : Nat)            -- allowed iff the value is a natural number ≤ n
+  | eq (s : Sel) (v : String)         -- allowed iff the value is the string v
+  | notIn (s : Sel) (ns : List Nat)   -- rejected iff the value is a natural number in ns
+
+def Rule.ok (r : Rule) (e : Ev) : Bool :=
+  match r with
+  | .le s n => match s.get e with | some (.num _ (some k) _) => decide (k ≤ n) | _ => false
+  | .eq s v => match s.get e with | some (.str x) => x == v | _ => false
+  | .notIn s ns => match s.get e with | some (.num _ (some k) _) => !ns.contains k | _ => true
+
+/-- firewall family used by the harness: blocked names, blocked channel strings, rules on
+    args / kwargs / attributes -/
 structure Fw where
   names : List String := []
   chans : List String := []
+  rules : List Rule := []
 
 def Fw.ok (f : Fw) (e : Ev) : Bool :=
   !f.names.contains e.name &&
-  !e.channels.any (fun c => match c with | .str s => f.chans.contains s | _ => false)
+  !e.channels.any (fun c => match c with | .str s => f.chans.contains s | _ => false) &&
+  f.rules.all (·.ok e)
+
+/-- `a<i>` | `k<hex key>` | `t<hex attribute name>` -/
+def parseSel (t : String) : Option Sel :=
+  let body := (t.drop 1).toString
+  match t.front with
+  | 'a' => body.toNat?.map Sel.arg
+  | 'k' => (strFromHex body).map Sel.kw
+  | 't' => (strFromHex body).map Sel.attr
+  | _ => none
+
+/-- `le:<sel>:<n>` | `eq:<sel>:<hex>` | `ni:<sel>:<n,n,…>` (`-` = empty list) -/
+def parseRule (t : String) : Option Rule :=
+  match t.splitOn ":" with
+  | ["le", s, n] =>
+    match parseSel s, n.toNat? with
+    | some s, some n => some (.le s n)
+    | _, _ => none
+  | ["eq", s, v] =>
+    match parseSel s, strFromHex v with
+    | some s, some v => some (.eq s v)
+    | _, _ => none
+  | ["ni", s, ns] =>
+    match parseSel s, (if ns == "-" then some [] else natList (ns.splitOn ",")) with
+    | some s, some ns => some (.notIn s ns)
+    | _, _ => none
+  | _ => none
 
 structure NodeSt where
   excl : List String := []
@@ -162,13 +215,16 @@ def nodeStep (s : NodeSt) : List String → NodeSt × String
     | some p, some j => ({ s with table := s.table.insert p (.parsed j) }, "ok")
     | _, _ => (s, "bad-op")
   | "new" :: p :: rest =>
-    -- new <p> <send names…> | <send chans…> | <recv names…> | <recv chans…>
+    -- new <p> <send names…> | <send chans…> | <recv names…> | <recv chans…> [| <send rules…> | <recv rules…>]
     let (sn, r1) := splitBar2 rest
     let (sc, r2) := splitBar2 r1
-    let (rn, rc) := splitBar2 r2
-    match p.toNat?, hexStrs sn, hexStrs sc, hexStrs rn, hexStrs rc with
-    | some p, some sn, some sc, some rn, some rc => (s.set p ({}, ⟨sn, sc⟩, ⟨rn, rc⟩), "ok")
-    | _, _, _, _, _ => (s, "bad-op")
+    let (rn, r3) := splitBar2 r2
+    let (rc, r4) := splitBar2 r3
+    let (sr, rr) := splitBar2 r4
+    match p.toNat?, hexStrs sn, hexStrs sc, hexStrs rn, hexStrs rc, sr.mapM parseRule, rr.mapM parseRule with
+    | some p, some sn, some sc, some rn, some rc, some sr, some rr =>
+      (s.set p ({}, ⟨sn, sc, sr⟩, ⟨rn, rc, rr⟩), "ok")
+    | _, _, _, _, _, _, _ => (s, "bad-op")
   | "send" :: p :: nores :: js =>
     match p.toNat?, (parseJAll js).bind evOfJ with
     | some p, some e =>
